@@ -17,7 +17,10 @@ DriftOf(g) == IF ~Known(g) THEN 0 ELSE Cardinality({k \in DOMAIN g.steps : Proje
 BadTraces == {k \in DOMAIN G : Bad(G[k]) # {} \/ ~ShapeOk(G[k])}
 ASSUME \A k \in BadTraces : PrintT(<<"VERDICT", ToJson([id |-> G[k].id, kind |-> G[k].kind, item |-> G[k].item, host |-> G[k].host,
                                                          wellFormed |-> ShapeOk(G[k]), bad |-> Bad(G[k])])>>)
-ASSUME PrintT(<<"SUMMARY", ToJson([traces |-> Len(G), rejected |-> Cardinality(BadTraces),
+X == R.cross
+BadCross == {k \in DOMAIN X : CrossFailing(X[k]) # {}}
+ASSUME \A k \in BadCross : PrintT(<<"XVERDICT", ToJson([k |-> k, failing |-> CrossFailing(X[k]), rec |-> X[k]])>>)
+ASSUME PrintT(<<"SUMMARY", ToJson([traces |-> Len(G), rejected |-> Cardinality(BadTraces), cross |-> Len(X), crossRejected |-> Cardinality(BadCross),
                                    steps |-> FoldLeft(LAMBDA acc, g : acc + Len(g.steps), 0, G),
                                    drift |-> FoldLeft(LAMBDA acc, g : acc + DriftOf(g), 0, G)])>>)
 Init == dummy = 0
